@@ -9,5 +9,6 @@ CONSTANTS
  Prefill = 62
  MaxBlk = 8
  LinkFirst = TRUE
+ ClearRetries = TRUE
 INVARIANTS Emit
 CHECK_DEADLOCK FALSE
